@@ -96,6 +96,28 @@ def scenarios(tier, rng):
             for e in small_e:
                 if 0 <= e <= mx:
                     P(bits, a & mx, e)
+        # exponents of about one limb against small bases, power-of-two bases in particular: a shortcut (2^k)^e = 1 << (k e)
+        # computes k * e in a machine word, which wraps for e in [2^64 / k, 2^64) (seed S8-A); the exponents sit at 2^64 / k +- 1
+        # for every k that fits, and at 2^32, 2^63, 2^64 +- 1.  (64 squarings each: cheap for the specification.)
+        if 8 <= bits <= 576:
+            ks = [k for k in (1, 2, 3, 4, 5, 7, 8, 16, 31, 32, 33, 63, 64, bits - 1) if 0 < k < bits]
+            if quick:
+                ks = ks[:4] + rng.sample(ks[4:], min(3, len(ks) - 4))
+            for k in ks:
+                es = {(1 << 64) // k - 1, (1 << 64) // k, (1 << 64) // k + 1, ((1 << 64) + k - 1) // k, 1 << 63, (1 << 64) - 1,
+                      1 << 64, (1 << 64) + 1, 1 << 32, (1 << 32) + 1, ((1 << 64) + 2) // 3, (1 << 62) + 1}
+                es = sorted(e for e in es if e <= mx)
+                if quick:
+                    es = rng.sample(es, min(len(es), 5))
+                for e in es:
+                    P(bits, 1 << k, e)
+                if es:
+                    P(bits, ((1 << k) + 1) & mx, rng.choice(es))
+                    P(bits, ((1 << k) - 1) & mx or 3, rng.choice(es))
+            for b in (3, 10):
+                for e in (1 << 63, (1 << 64) - 1, 1 << 64):
+                    if e <= mx:
+                        P(bits, b, e)
         if bits <= (128 if quick else 320):
             for _ in range(3 if quick else 10):
                 P(bits, rand_value(rng, bits) | 1, rand_value(rng, bits))     # odd base, full-width exponent
